@@ -790,10 +790,21 @@ func zones() []*time.Location {
 		time.FixedZone("", 5*3600+1800),
 		time.FixedZone("", 0),
 		time.FixedZone("", -3*3600),
+		// zones the header comment cannot name: offsets with seconds, names
+		// that are not abbreviations or that would break the comment line
+		time.FixedZone("", 3632),
+		time.FixedZone("LMT", -(7*3600 + 52*60 + 58)),
+		time.FixedZone("myzone", 3600),
+		time.FixedZone("X", -2*3600),
+		time.FixedZone("Europe/Berlin", 7200),
+		time.FixedZone("a b", 60),
+		time.FixedZone("two\nlines", -60),
+		time.FixedZone("GMT+1", 3600),
 	}
 }
 
-var zoneNames = []string{"UTC", "CET+1", "PST-8", "CEST+2", "unnamed+05:30", "unnamed+00:00", "unnamed-03:00"}
+var zoneNames = []string{"UTC", "CET+1", "PST-8", "CEST+2", "unnamed+05:30", "unnamed+00:00", "unnamed-03:00",
+	"unnamed+01:00:32", "LMT-07:52:58", "myzone+1", "X-2", "Europe/Berlin+2", "'a b'+00:01", "name with a line break-00:01", "GMT+1"}
 
 func dateFamily() Family {
 	type ymd struct {
@@ -807,14 +818,14 @@ func dateFamily() Family {
 	nanos := []int{0, 500_000_000, 999_999_999}
 	return Family{
 		Name: "creation-dates",
-		N:    1 + len(instants)*len(nanos)*7,
-		Rule: "base font x creation time: zero, or {2006-01-02 15:04:05, 1969-12-31 23:59:59, 0001-01-02 12:00:00, 9999-12-30 23:59:59, 2024-02-29 12:00:00} (wall clock in the zone) x sub-second part {0, 0.5 s, 0.999999999 s} x zone {UTC, named fixed zones CET +1 h / PST -8 h / CEST +2 h, unnamed fixed zones +05:30 / +00:00 / -03:00}",
+		N:    1 + len(instants)*len(nanos)*len(zoneNames),
+		Rule: "base font x creation time: zero, or {2006-01-02 15:04:05, 1969-12-31 23:59:59, 0001-01-02 12:00:00, 9999-12-30 23:59:59, 2024-02-29 12:00:00} (wall clock in the zone) x sub-second part {0, 0.5 s, 0.999999999 s} x zone {UTC, named fixed zones CET +1 h / PST -8 h / CEST +2 h, unnamed fixed zones +05:30 / +00:00 / -03:00, zone offsets with seconds (+01:00:32, LMT -07:52:58), zone names that are not abbreviations (myzone, X, Europe/Berlin, `a b`, a name with a line break, GMT+1)}",
 		Build: func(i int) *type1.Font {
 			f := Base()
 			if i == 0 {
 				return f
 			}
-			d := radix(i-1, len(instants), len(nanos), 7)
+			d := radix(i-1, len(instants), len(nanos), len(zoneNames))
 			t := instants[d[0]]
 			f.CreationDate = time.Date(t.y, t.m, t.d, t.h, t.mi, t.s, nanos[d[1]], zones()[d[2]])
 			return f
